@@ -36,6 +36,15 @@
 (*        cooldown (the tree before the fix): after cool-down -> remove -> *)
 (*        add -> cool-down the first entry ends the second cool-down       *)
 (*        early (NoEarlyReturn fails).                                     *)
+(*  FreshChannelOnWake       TRUE  = hypothetical checkHasPeers that, when  *)
+(*        the pool becomes non-empty, closes hasPeerCh AND installs a      *)
+(*        fresh open channel at once (and does not replace it when the     *)
+(*        pool runs empty).  Sequentially indistinguishable; but a waiter  *)
+(*        in next() whose tryGet just failed and which reads the channel   *)
+(*        only AFTER a peer became active captures the fresh open channel  *)
+(*        and sleeps with an active peer in the pool: NoSleepingWaiter     *)
+(*        fails.  TLC's schedule is forced on the real code with the gate  *)
+(*        between the failed tryGet and the channel read (hook next.loop). *)
 (*  Atomic                   TRUE  = every method is ONE step (the         *)
 (*        sequential semantics; used for behaviour replay B2 on the real   *)
 (*        pool); FALSE = the fine-grained steps (deadlocks, B1 traces).    *)
@@ -51,7 +60,8 @@ CONSTANTS
   MaxOps,           \* operations per caller (bound)
   OpNames,          \* subset of AllOps the callers may issue
   CleanupThreshold, \* pool.cleanupThreshold (code: 2)
-  Atomic, CallbacksUnderQueueLock, CountCooldowns
+  Atomic, CallbacksUnderQueueLock, CountCooldowns,
+  FreshChannelOnWake  \* FALSE = the code; TRUE = HYPOTHETICAL variant of checkHasPeers (directed witness, see below)
 
 AllOps == {"add", "remove", "tryGet", "next", "putOnCooldown", "has", "len", "peers"}
 PeerOps == {"add", "remove", "putOnCooldown", "has"}     \* operations that take a peer argument
@@ -92,8 +102,11 @@ view == <<pool, queue, mu, now, pc, op, opsLeft, waitGen, ctxDone, exp, k, coolU
 StRead(P, p) == IF P.st[p] = "none" THEN "active" ELSE P.st[p]
 
 \* pool.checkHasPeers
-CHP(P) == IF P.ac > 0 /\ ~P.hp THEN [P EXCEPT !.hp = TRUE]                       \* close(hasPeerCh)
-          ELSE IF P.ac = 0 /\ P.hp THEN [P EXCEPT !.hp = FALSE, !.gen = @ + 1]   \* fresh channel
+CHP(P) == IF FreshChannelOnWake
+            THEN IF P.ac > 0 /\ ~P.hp THEN [P EXCEPT !.hp = TRUE, !.gen = @ + 1]    \* close + fresh open channel
+                 ELSE IF P.ac = 0 /\ P.hp THEN [P EXCEPT !.hp = FALSE] ELSE P
+          ELSE IF P.ac > 0 /\ ~P.hp THEN [P EXCEPT !.hp = TRUE]                     \* close(hasPeerCh)
+          ELSE IF P.ac = 0 /\ P.hp THEN [P EXCEPT !.hp = FALSE, !.gen = @ + 1]      \* fresh channel
           ELSE P
 
 \* pool.add(p)
@@ -305,7 +318,8 @@ NextRead(c) ==
   /\ UNCHANGED <<pool, queue, now, op, opsLeft, ctxDone, exp, k, coolUntil, viol>>
 
 \* the captured channel is closed iff it is not the current one or hasPeer is set
-ChanClosed(c) == ~waitGen[c].open \/ waitGen[c].gen # pool.gen \/ pool.hp
+ChanClosed(c) == IF FreshChannelOnWake THEN waitGen[c].gen # pool.gen     \* (the current channel is always open)
+                 ELSE ~waitGen[c].open \/ waitGen[c].gen # pool.gen \/ pool.hp
 
 \* next(): select { case <-hasPeerCh: (loop) ; case <-ctx.Done(): return }
 NextWake(c) ==
@@ -534,6 +548,11 @@ ListStatusConsistent ==
 
 \* hasPeer (= the current channel is closed) iff there is an active peer
 HasPeerExact == pool.hp <=> pool.ac > 0
+
+\* "waiting callers are woken when a peer becomes available": a caller that sits in the select of next() with a live
+\* context while a peer is active has a closed channel in its hands (it will wake up and ask again)
+NoSleepingWaiter ==
+  \A c \in Callers : (pc[c] = "nx_wait" /\ ~ctxDone[c] /\ pool.ac > 0) => ChanClosed(c)
 
 \* a peer handed out by tryGet/next was active, and its cool-down had elapsed
 OnlyActiveOffered == "inactive" \notin viol /\ "panic" \notin viol
